@@ -1,7 +1,7 @@
 (* Properties_C01 — private objects are unreachable unless the normal user is logged in; token objects
    need read-write sessions.  Statements only. *)
 From Coq Require Import List NArith Bool.
-From SoftHSM Require Import Gen_Entry EntryFacts Gen_Const Gen_Pure Defs Core AccessFacts StepFacts Invariants PrivacyFacts FindFacts EntryModel.
+From SoftHSM Require Import Gen_Entry EntryFacts Gen_Const Gen_Pure Defs Core AccessFacts StepFacts Invariants PrivacyFacts FindFacts EntryModel Gen_Ops ExtractFacts.
 Import ListNotations.
 Local Open Scope N_scope.
 
@@ -226,3 +226,25 @@ Theorem C01_setattr_model_refusal_is_code : forall (s : state) (h oh : N) (x : s
   rv_of (snd (step s (OSetAttr h oh tm))) = Some (C_SetAttributeValue.app (setattr_env s h oh x rest 1 (N.of_nat (length tm)))).
 Proof. exact setattr_model_refusal_is_code. Qed.
 Print Assumptions C01_setattr_model_refusal_is_code.
+
+(* ---- extractObjectInformation (regenerated whole): which privacy the access check of C_CreateObject is made with ---- *)
+
+Theorem C01_extract_private : forall (e : extractObjectInformation.env) (v : N),
+  fst (extractObjectInformation.app e) = CKR_OK ->
+  In (OUT_PRIVATE, v) (snd (extractObjectInformation.app e)) ->
+  let cls := extractObjectInformation.hv1_objClass e in
+  v = if negb (extractObjectInformation.bImplicit e) && ((cls =? CKO_CERTIFICATE) || (cls =? CKO_PUBLIC_KEY)) && negb (extractObjectInformation.hv1_bHasPrivate e)
+      then 0 else extractObjectInformation.hv1_isPrivate e.
+Proof. exact extract_private. Qed.
+Print Assumptions C01_extract_private.
+
+Theorem C01_extract_token : forall (e : extractObjectInformation.env) (v : N),
+  In (OUT_TOKEN, v) (snd (extractObjectInformation.app e)) -> v = extractObjectInformation.hv1_isOnToken e.
+Proof. exact extract_token. Qed.
+Print Assumptions C01_extract_token.
+
+Theorem C01_extract_needs_class : forall (e : extractObjectInformation.env),
+  fst (extractObjectInformation.app e) = CKR_OK -> extractObjectInformation.bImplicit e = false ->
+  extractObjectInformation.hv1_bHasClass e = true.
+Proof. exact extract_needs_class. Qed.
+Print Assumptions C01_extract_needs_class.
